@@ -488,3 +488,36 @@ def contains_literal_nfa(lit):
 def sp_escape(lit):
     import re as _re
     return _re.escape(lit)
+
+
+def groups_possibly_unset(pattern):
+    """names of the groups of `pattern` that can stay unset in a successful match: a named group inside one branch of an alternation, or
+    under a repetition that may run zero times"""
+    import re._parser as _rp
+    import re._constants as _rc
+    tree = _rp.parse(pattern)
+    names = {idx: nm for nm, idx in tree.state.groupdict.items()}
+    out = set()
+
+    def walk(items, optional):
+        for op, av in items:
+            if op is _rc.SUBPATTERN:
+                gid, _, _, sub = av
+                if gid in names and optional:
+                    out.add(names[gid])
+                walk(sub, optional)
+            elif op is _rc.BRANCH:
+                for br in av[1]:
+                    walk(br, True if len(av[1]) > 1 else optional)
+            elif op in (_rc.MAX_REPEAT, _rc.MIN_REPEAT, getattr(_rc, 'POSSESSIVE_REPEAT', None)):
+                walk(av[2], optional or av[0] == 0)
+            elif op in (_rc.ASSERT, _rc.ASSERT_NOT):
+                walk(av[1], True)
+            elif op is getattr(_rc, 'ATOMIC_GROUP', None):
+                walk(av, optional)
+            elif op is _rc.GROUPREF_EXISTS:
+                walk(av[1], True)
+                if av[2]:
+                    walk(av[2], True)
+    walk(list(tree), False)
+    return out
